@@ -2,4 +2,4 @@
    nat -> OCaml int for frame identities, slot indices and the queue bound). *)
 From Coq Require Import Extraction ExtrOcamlBasic ExtrOcamlNatInt.
 From WsConcC Require SendQueue.
-Extraction "sqmodel.ml" SendQueue.init SendQueue.step SendQueue.observe SendQueue.wire SendQueue.accepted SendQueue.hand SendQueue.somes.
+Extraction "sqmodel.ml" SendQueue.init SendQueue.step SendQueue.observe SendQueue.wire SendQueue.accepted SendQueue.hand SendQueue.somes SendQueue.begin_msg SendQueue.nframes SendQueue.wire_len.
